@@ -60,7 +60,7 @@ def c06(tier, seed):
         obs = vlib.Obs()
         b = vlib.compile_many(work, 'canmon_asan', can_sources(), vlib.ASAN_FLAGS)
         R = 6 if tier == 'quick' else 400
-        nseeds = 8 if tier == 'quick' else 16
+        nseeds = 8 if tier == 'quick' else 64
         jobs = [dict(VP_SEED=int(seed) * 100 + i, VP_REPS=R) for i in range(nseeds)]
         vlib.run_parallel(lambda e: vlib.run_monitor(obs, b, e, tag='can'), jobs)
         cov = dict(distinct_nontrivial=int(obs.stats.get('nontrivial', 0)) // nseeds,
@@ -86,7 +86,7 @@ def c07(tier, seed):
     try:
         obs = vlib.Obs()
         b = build_vssmon(work)
-        N = 48000 if tier == 'quick' else 4000000
+        N = 48000 if tier == 'quick' else 24000000
         run_split(obs, b, 'encode', N, seed)
         cov = dict(distinct_nontrivial=int(obs.stats.get('nontrivial', 0)),
                    rule='%d generated messages: address mode 0..3 x all 256 datatype codes (24 defined, reserved ones revisited less '
@@ -106,7 +106,7 @@ def c08(tier, seed):
     try:
         obs = vlib.Obs()
         b = build_vssmon(work)
-        N = 32000 if tier == 'quick' else 2000000
+        N = 32000 if tier == 'quick' else 8000000
         for place in ([0, 1, 3, 6] if tier == 'quick' else range(8)):
             run_split(obs, b, 'decode', N // (4 if tier == 'quick' else 8), seed, nproc=16 if tier != 'quick' else 4, extra=dict(VP_PLACE=place))
         if tier == 'thorough':
@@ -130,7 +130,7 @@ def c09(tier, seed):
         obs = vlib.Obs()
         b = build_vssmon(work)
         R = 6 if tier == 'quick' else 150
-        jobs = [dict(VP_MODE='pad', VP_CASES=R, VP_SEED=int(seed) * 100 + i, VP_PLACE=i % 8) for i in range(8 if tier == 'quick' else 16)]
+        jobs = [dict(VP_MODE='pad', VP_CASES=R, VP_SEED=int(seed) * 100 + i, VP_PLACE=i % 8) for i in range(8 if tier == 'quick' else 64)]
         vlib.run_parallel(lambda e: vlib.run_monitor(obs, b, e, tag='pad'), jobs)
         cov = dict(distinct_nontrivial=int(obs.stats.get('nontrivial', 0)) // len(jobs), exhaustive=True,
                    rule='exhaustive message length 12..2044 x prior contents {all 0xFF, zero body + 0xFF tail, %d random} x %d '
@@ -149,7 +149,7 @@ def c10(tier, seed):
     try:
         obs = vlib.Obs()
         b = build_vssmon(work)
-        N = 6400 if tier == 'quick' else 600000
+        N = 6400 if tier == 'quick' else 1600000
         run_split(obs, b, 'strarr', N, seed, nproc=32 if tier == 'quick' else 64)
         if tier == 'thorough':
             memcheck(obs, work, 'strarr', 300, seed)
